@@ -80,7 +80,9 @@ Lemma only_push_level P : only P w_push_level. Proof. apply only_nil. Qed.
 Lemma only_set_pending P b : only P (set_pending b). Proof. apply only_nil. Qed.
 Lemma only_reset_record P : only P w_reset_record. Proof. apply only_nil. Qed.
 Lemma only_pop_level P : only P w_pop_level.
-Proof. apply only_guard. intros w. destruct (decl w); reflexivity. Qed.
+Proof. apply only_guard. intros w. destruct (decl w); destruct (sdecl w); reflexivity. Qed.
+Lemma only_record_sort P s : only P (w_record_sort s).
+Proof. apply only_guard. intros w. destruct (sdecl w); reflexivity. Qed.
 Lemma only_record P s : only P (w_record s).
 Proof. apply only_guard. intros w. destruct (decl w); reflexivity. Qed.
 Lemma only_repeat_m P a : only P a -> forall n, only P (repeat_m n a).
@@ -95,13 +97,20 @@ Lemma only_declare_missing : forall fv, only reading (declare_missing fv).
 Proof.
   induction fv as [|d r IH]; [intros w; reflexivity|].
   cbn [declare_missing]. apply only_seq; [|exact IH].
-  apply only_guard. intros w. destruct (declared_in d (decl w)); [reflexivity|].
+  apply only_guard. intros w. destruct (declared_in (fst d) (decl w)); [reflexivity|].
   apply (only_seq reading); [apply only_emit; reflexivity | apply only_record].
+Qed.
+Lemma only_declare_missing_sorts : forall ss, only reading (declare_missing_sorts ss).
+Proof.
+  induction ss as [|d r IH]; [intros w; reflexivity|].
+  cbn [declare_missing_sorts]. apply only_seq; [|exact IH].
+  apply only_guard. intros w. destruct (declared_in d (sdecl w)); [reflexivity|].
+  apply (only_seq reading); [apply only_emit; reflexivity | apply only_record_sort].
 Qed.
 Lemma only_add f : only reading (add_assertion f).
 Proof.
-  apply only_seq; [apply only_clear|]. apply only_seq; [apply only_declare_missing|].
-  apply only_emit; reflexivity.
+  apply only_seq; [apply only_clear|]. apply only_seq; [apply only_declare_missing_sorts|].
+  apply only_seq; [apply only_declare_missing|]. apply only_emit; reflexivity.
 Qed.
 Lemma only_push n : only reading (push n).
 Proof.
@@ -191,8 +200,8 @@ Qed.
 
 (* value queries in the middle of a history, get_model at depth, then more commands *)
 Example sync_example :
-  in_sync (stream [AAdd (FAtom 0 [0]); ASolve; AGetValue [0]; ASolve; APush 2; AAdd (FAtom 1 [1]);
-                   AIsSat (FAtom 2 [2]); AGetModel; APop 2; AReset; ASolve; AExit]) = true.
+  in_sync (stream [AAdd (FAtom 0 (plain [0])); ASolve; AGetValue [0]; ASolve; APush 2; AAdd (FAtom 1 (plain [1]));
+                   AIsSat (FAtom 2 (plain [2])); AGetModel; APop 2; AReset; ASolve; AExit]) = true.
 Proof. reflexivity. Qed.
 
 (* ====================================================================== *)
@@ -213,11 +222,16 @@ Proof. unfold s_declared, declared_in. induction s as [|l r IH]; cbn; congruence
 Lemma s_declared_cons x l r : s_declared x r = true -> s_declared x (l :: r) = true.
 Proof. unfold s_declared. cbn. intros ->. apply orb_true_r. Qed.
 
-Lemma s_declared_push x n s : s_declared x (repeat (mkL [] []) n ++ s) = s_declared x s.
+Lemma s_declared_push x n s : s_declared x (repeat (mkL [] [] []) n ++ s) = s_declared x s.
 Proof. induction n as [|n IH]; cbn; auto. Qed.
 
-Lemma s_declared_add x y l r a : s_declared x (l :: r) = true ->
-  s_declared x (mkL (y :: ldecl l) a :: r) = true.
+Lemma s_sort_declared_map x s : s_sort_declared x s = declared_in x (map lsorts s).
+Proof. unfold s_sort_declared, declared_in. induction s as [|l r IH]; cbn; congruence. Qed.
+Lemma s_sort_declared_push x n s : s_sort_declared x (repeat (mkL [] [] []) n ++ s) = s_sort_declared x s.
+Proof. induction n as [|n IH]; cbn; auto. Qed.
+
+Lemma s_declared_add x y l r a b : s_declared x (l :: r) = true ->
+  s_declared x (mkL (y :: ldecl l) a b :: r) = true.
 Proof.
   unfold s_declared. cbn [existsb ldecl]. unfold mem. cbn [existsb]. intros H.
   apply orb_true_iff in H. destruct H as [H|H]; rewrite H.
@@ -238,7 +252,7 @@ Proof.
   induction n as [|n IH]; intros s H; [exact H|]. destruct s as [|l r]; [exact I|].
   cbn. apply IH. exact (proj2 H).
 Qed.
-Lemma wf_push : forall n s, wf_levels s -> wf_levels (repeat (mkL [] []) n ++ s).
+Lemma wf_push : forall n s, wf_levels s -> wf_levels (repeat (mkL [] [] []) n ++ s).
 Proof.
   induction n as [|n IH]; intros s H; [exact H|]. cbn. split; [intros f x []|]. apply IH, H.
 Qed.
@@ -269,9 +283,13 @@ Section Legal.
   Lemma spec_step_wf s c : wf_levels s -> wf_levels (fst (sstep s c)).
   Proof.
     intros Hwf. destruct c; cbn [spec_step]; try exact Hwf.
-    - destruct (s_declared s0 s) eqn:E; [exact Hwf|]. destruct s as [|l r]; [exact I|].
+    - destruct (s_sort_declared s0 s) eqn:E; [exact Hwf|]. destruct s as [|l r]; [exact I|].
       cbn [fst]. destruct Hwf as [H1 H2]. split; [|exact H2].
-      intros f x Hf Hx. cbn [lasserts] in Hf. apply s_declared_add. exact (H1 f x Hf Hx).
+      intros f x Hf Hx. cbn [lasserts] in Hf. exact (H1 f x Hf Hx).
+    - destruct (s_declared x s) eqn:E; [exact Hwf|]. destruct (sort_ok so s); [|exact Hwf].
+      destruct s as [|l r]; [exact I|].
+      cbn [fst]. destruct Hwf as [H1 H2]. split; [|exact H2].
+      intros f y Hf Hy. cbn [lasserts] in Hf. apply s_declared_add. exact (H1 f y Hf Hy).
     - destruct (forallb (fun x => s_declared x s) (fvs f)) eqn:E; [|exact Hwf].
       destruct s as [|l r]; [exact I|]. cbn [fst]. destruct Hwf as [H1 H2]. split; [|exact H2].
       intros g x Hg Hx. cbn [lasserts] in Hg. destruct Hg as [<-|Hg].
@@ -311,55 +329,116 @@ Section Legal.
      pending one-shot level is the stack the user means *)
   Definition Inv (w : wstate) (s : sstate) (i : ideal) (d : nat) : Prop :=
     werr w = false /\ map ldecl s = decl w /\
-    map lasserts (if pending w then tl s else s) = i /\ length i = S d /\ wf_levels s.
+    map lasserts (if pending w then tl s else s) = i /\ length i = S d /\ wf_levels s /\
+    map lsorts s = sdecl w.
 
   Lemma clear_ok w s i d : Inv w s i d ->
     exists w' s' cs rs, runs clear_pending w s w' s' cs rs /\ no_error rs = true /\
       Inv w' s' i d /\ pending w' = false.
   Proof.
-    intros (He & Hd & Ha & Hl & Hwf). destruct w as [dl p e]. cbn in He, Hd, Ha. subst e.
+    intros (He & Hd & Ha & Hl & Hwf & Hs). destruct w as [dl sl p e]. cbn in He, Hd, Ha, Hs. subst e.
     destruct p.
     - destruct s as [|l0 [|l1 s2]]; cbn in Ha; subst i; try discriminate.
-      cbn in Hd. subst dl.
-      exists (mkW (ldecl l1 :: map ldecl s2) false false), (l1 :: s2), [CPop 1], [RSuccess].
+      cbn in Hd, Hs. subst dl sl.
+      exists (mkW (ldecl l1 :: map ldecl s2) (lsorts l1 :: map lsorts s2) false false),
+             (l1 :: s2), [CPop 1], [RSuccess].
       split; [split; reflexivity|]. split; [reflexivity|]. split; [|reflexivity].
       unfold Inv. cbn. split; [reflexivity|]. split; [reflexivity|]. split; [reflexivity|].
-      split; [exact Hl | exact (proj2 Hwf)].
-    - exists (mkW dl false false), s, [], []. split; [split; reflexivity|].
+      split; [exact Hl|]. split; [exact (proj2 Hwf) | reflexivity].
+    - exists (mkW dl sl false false), s, [], []. split; [split; reflexivity|].
       split; [reflexivity|]. split; [|reflexivity].
       unfold Inv. cbn. split; [reflexivity|]. split; [exact Hd|]. split; [exact Ha|].
-      split; [exact Hl | exact Hwf].
+      split; [exact Hl|]. split; [exact Hwf | exact Hs].
   Qed.
 
-  Lemma declare_missing_ok : forall fv w s, werr w = false -> map ldecl s = decl w -> s <> [] ->
+  Lemma sort_ok_ext so s s' : map lsorts s' = map lsorts s -> sort_ok so s' = sort_ok so s.
+  Proof. intros H. destruct so; [|reflexivity]. cbn. rewrite !s_sort_declared_map, H. reflexivity. Qed.
+  Lemma s_declared_ext x s s' : map ldecl s' = map ldecl s -> s_declared x s' = s_declared x s.
+  Proof. intros H. rewrite !s_declared_map, H. reflexivity. Qed.
+  Lemma sorts_of_in : forall l y x, In (y, Some x) l -> In x (sorts_of l).
+  Proof.
+    induction l as [|[z [t|]] r IH]; intros y x H; [destruct H| |].
+    - destruct H as [H|H]; [injection H as _ ->; left; reflexivity | right; eapply IH; exact H].
+    - destruct H as [H|H]; [discriminate | eapply IH; exact H].
+  Qed.
+
+  (* declaring the missing sorts: the symbol record and the assertions are untouched *)
+  Lemma declare_missing_sorts_ok : forall ss w s, werr w = false -> map ldecl s = decl w ->
+    map lsorts s = sdecl w -> s <> [] ->
+    exists w' s' cs rs, runs (declare_missing_sorts ss) w s w' s' cs rs /\ no_error rs = true /\
+      werr w' = false /\ map ldecl s' = decl w' /\ map lsorts s' = sdecl w' /\
+      pending w' = pending w /\ map lasserts s' = map lasserts s /\ map ldecl s' = map ldecl s /\
+      (forall x, s_sort_declared x s = true -> s_sort_declared x s' = true) /\
+      (forall x, In x ss -> s_sort_declared x s' = true).
+  Proof.
+    induction ss as [|d r IH]; intros w s He Hd Hs Hne.
+    - exists w, s, [], []. split; [split; reflexivity|]. repeat split; auto; intros x [].
+    - destruct w as [dl sl p e]. cbn in He, Hd, Hs. subst e dl sl.
+      destruct (declared_in d (map lsorts s)) eqn:Ed.
+      + destruct (IH (mkW (map ldecl s) (map lsorts s) p false) s)
+          as (w' & s' & cs & rs & Hr & Hn & P1 & P2 & P3 & P4 & P5 & P6 & P7 & P8); auto.
+        exists w', s', ([] ++ cs), ([] ++ rs). split.
+        * cbn [declare_missing_sorts]. eapply runs_seq; [|exact Hr]. split; [|reflexivity].
+          unfold guard. cbn [werr decl sdecl pending]. rewrite Ed. reflexivity.
+        * repeat split; auto. intros x [<-|Hx]; [|auto]. apply P7. rewrite s_sort_declared_map. exact Ed.
+      + destruct s as [|l rest]; [congruence|].
+        set (s1 := mkL (ldecl l) (lasserts l) (d :: lsorts l) :: rest).
+        destruct (IH (mkW (map ldecl s1) (map lsorts s1) p false) s1)
+          as (w' & s' & cs & rs & Hr & Hn & P1 & P2 & P3 & P4 & P5 & P6 & P7 & P8); auto; [discriminate|].
+        exists w', s', ([CDeclareSort d] ++ cs), ([RSuccess] ++ rs). split.
+        * cbn [declare_missing_sorts]. eapply runs_seq; [|exact Hr]. split.
+          -- unfold guard. cbn [werr decl sdecl pending]. rewrite Ed. reflexivity.
+          -- cbn [spec_exec spec_step]. rewrite s_sort_declared_map, Ed. reflexivity.
+        * assert (Hmono : forall x, s_sort_declared x (l :: rest) = true -> s_sort_declared x s1 = true).
+          { intros x. unfold s_sort_declared, s1. cbn [existsb lsorts]. unfold mem. cbn [existsb].
+            intros H. apply orb_true_iff in H. destruct H as [H|H]; rewrite H.
+            - rewrite orb_true_r. reflexivity.
+            - apply orb_true_r. }
+          split; [cbn; exact Hn|]. split; [exact P1|]. split; [exact P2|]. split; [exact P3|].
+          split; [exact P4|]. split; [rewrite P5; reflexivity|]. split; [rewrite P6; reflexivity|].
+          split; [intros x Hx; apply P7, Hmono, Hx|].
+          intros x [<-|Hx]; [|auto]. apply P7. unfold s_sort_declared, s1. cbn. rewrite Nat.eqb_refl. reflexivity.
+  Qed.
+
+  Lemma declare_missing_ok : forall fv w s, werr w = false -> map ldecl s = decl w ->
+    map lsorts s = sdecl w -> s <> [] ->
+    (forall d, In d fv -> sort_ok (snd d) s = true) ->
     exists w' s' cs rs, runs (declare_missing fv) w s w' s' cs rs /\ no_error rs = true /\
       werr w' = false /\ map ldecl s' = decl w' /\ pending w' = pending w /\
       map lasserts s' = map lasserts s /\
       (forall x, s_declared x s = true -> s_declared x s' = true) /\
-      (forall x, In x fv -> s_declared x s' = true).
+      (forall x, In x (map fst fv) -> s_declared x s' = true) /\
+      map lsorts s' = map lsorts s /\ sdecl w' = sdecl w.
   Proof.
-    induction fv as [|d r IH]; intros w s He Hd Hne.
+    induction fv as [|d r IH]; intros w s He Hd Hs Hne Hso.
     - exists w, s, [], []. split; [split; reflexivity|]. repeat split; auto; intros x [].
-    - destruct w as [dl p e]. cbn in He, Hd. subst e dl.
-      destruct (declared_in d (map ldecl s)) eqn:Ed.
-      + destruct (IH (mkW (map ldecl s) p false) s) as (w' & s' & cs & rs & Hr & Hn & P1 & P2 & P3 & P4 & P5 & P6);
-          auto.
+    - destruct w as [dl sl p e]. cbn in He, Hd, Hs. subst e dl sl.
+      assert (Hso' : forall d0, In d0 r -> sort_ok (snd d0) s = true) by (intros d0 H0; apply Hso; right; exact H0).
+      destruct (declared_in (fst d) (map ldecl s)) eqn:Ed.
+      + destruct (IH (mkW (map ldecl s) (map lsorts s) p false) s)
+          as (w' & s' & cs & rs & Hr & Hn & P1 & P2 & P3 & P4 & P5 & P6 & P7 & P8); auto.
         exists w', s', ([] ++ cs), ([] ++ rs). split.
         * cbn [declare_missing]. eapply runs_seq; [|exact Hr]. split; [|reflexivity].
-          unfold guard. cbn [werr decl pending]. rewrite Ed. reflexivity.
+          unfold guard. cbn [werr decl sdecl pending]. rewrite Ed. reflexivity.
         * repeat split; auto. intros x [<-|Hx]; [|auto]. apply P5. rewrite s_declared_map. exact Ed.
       + destruct s as [|l rest]; [congruence|].
-        set (s1 := mkL (d :: ldecl l) (lasserts l) :: rest).
-        destruct (IH (mkW (map ldecl s1) p false) s1) as (w' & s' & cs & rs & Hr & Hn & P1 & P2 & P3 & P4 & P5 & P6);
-          auto; [discriminate|].
-        exists w', s', ([CDeclare d] ++ cs), ([RSuccess] ++ rs). split.
+        set (s1 := mkL (fst d :: ldecl l) (lasserts l) (lsorts l) :: rest).
+        assert (Hls : map lsorts s1 = map lsorts (l :: rest)) by reflexivity.
+        assert (Hso1 : forall d0, In d0 r -> sort_ok (snd d0) s1 = true)
+          by (intros d0 H0; rewrite (sort_ok_ext _ _ _ Hls); apply Hso'; exact H0).
+        assert (Hne1 : s1 <> []) by discriminate.
+        destruct (IH (mkW (map ldecl s1) (map lsorts s1) p false) s1 eq_refl eq_refl eq_refl Hne1 Hso1)
+          as (w' & s' & cs & rs & Hr & Hn & P1 & P2 & P3 & P4 & P5 & P6 & P7 & P8).
+        exists w', s', ([CDeclare (fst d) (snd d)] ++ cs), ([RSuccess] ++ rs). split.
         * cbn [declare_missing]. eapply runs_seq; [|exact Hr]. split.
-          -- unfold guard. cbn [werr decl pending]. rewrite Ed. reflexivity.
-          -- cbn [spec_exec spec_step]. rewrite s_declared_map, Ed. reflexivity.
+          -- unfold guard. cbn [werr decl sdecl pending]. rewrite Ed. reflexivity.
+          -- cbn [spec_exec spec_step]. rewrite s_declared_map, Ed.
+             rewrite (Hso d (or_introl eq_refl)). reflexivity.
         * assert (Hmono : forall x, s_declared x (l :: rest) = true -> s_declared x s1 = true).
           { intros x H. unfold s1. apply s_declared_add. exact H. }
           split; [cbn; exact Hn|]. split; [exact P1|]. split; [exact P2|]. split; [exact P3|].
           split; [rewrite P4; reflexivity|]. split; [intros x Hx; apply P5, Hmono, Hx|].
+          split; [|split; [rewrite P7; exact Hls | exact P8]].
           intros x [<-|Hx]; [|auto]. apply P5. unfold s_declared, s1. cbn. rewrite Nat.eqb_refl. reflexivity.
   Qed.
 
@@ -378,25 +457,35 @@ Section Legal.
       Inv w' s' (ideal_step i (AAdd f)) d /\ pending w' = false.
   Proof.
     intros HI. destruct (clear_ok w s i d HI) as (w1 & s1 & c1 & r1 & R1 & N1 & I1 & P1).
-    destruct I1 as (He & Hd & Ha & Hl & Hwf). rewrite P1 in Ha.
+    destruct I1 as (He & Hd & Ha & Hl & Hwf & Hs). rewrite P1 in Ha.
     assert (Hne : s1 <> []) by (intros ->; cbn in Ha; subst i; discriminate).
-    destruct (declare_missing_ok (fvs f) w1 s1 He Hd Hne)
-      as (w2 & s2 & c2 & r2 & R2 & N2 & Q1 & Q2 & Q3 & Q4 & Q5 & Q6).
+    (* sorts *)
+    destruct (declare_missing_sorts_ok (fsorts f) w1 s1 He Hd Hs Hne)
+      as (w0 & s0 & c0 & r0 & R0 & N0 & T1 & T2 & T3 & T4 & T5 & T6 & T7 & T8).
+    assert (Hne0 : s0 <> []) by (intros ->; destruct s1; [congruence | discriminate]).
+    assert (Hso : forall d0, In d0 (fva f) -> sort_ok (snd d0) s0 = true).
+    { intros [y [x|]] H0; [|reflexivity]. cbn. apply T8. unfold fsorts. eapply sorts_of_in. exact H0. }
+    (* symbols *)
+    destruct (declare_missing_ok (fva f) w0 s0 T1 T2 T3 Hne0 Hso)
+      as (w2 & s2 & c2 & r2 & R2 & N2 & Q1 & Q2 & Q3 & Q4 & Q5 & Q6 & Q7 & Q8).
     assert (Hall : forallb (fun x => s_declared x s2) (fvs f) = true)
       by (apply forallb_forall; exact Q6).
-    destruct s2 as [|l rest]; [destruct s1; cbn in Q4; [congruence|discriminate]|].
+    destruct s2 as [|l rest]; [destruct s0; cbn in Q4; [congruence|discriminate]|].
     pose proof (emit_runs (CAssert f) w2 (l :: rest) Q1) as R3.
     cbn [spec_step] in R3. rewrite Hall in R3. cbn [fst snd] in R3.
-    exists w2, (mkL (ldecl l) (f :: lasserts l) :: rest), (c1 ++ c2 ++ [CAssert f]), (r1 ++ r2 ++ [RSuccess]).
-    split; [eapply runs_seq; [exact R1|]; eapply runs_seq; [exact R2 | exact R3]|].
-    split; [rewrite !no_error_app, N1, N2; reflexivity|].
+    exists w2, (mkL (ldecl l) (f :: lasserts l) (lsorts l) :: rest),
+           (c1 ++ c0 ++ c2 ++ [CAssert f]), (r1 ++ r0 ++ r2 ++ [RSuccess]).
+    split; [eapply runs_seq; [exact R1|]; eapply runs_seq; [exact R0|]; eapply runs_seq;
+            [exact R2 | exact R3]|].
+    split; [rewrite !no_error_app, N1, N0, N2; reflexivity|].
     split; [|congruence].
-    assert (Hwf2 : wf_levels (mkL (ldecl l) (f :: lasserts l) :: rest)).
-    { eapply runs_wf; [exact R3|]. eapply runs_wf; [exact R2 | exact Hwf]. }
-    unfold Inv. rewrite Q3, P1. cbn [map ldecl lasserts] in *.
+    assert (Hwf2 : wf_levels (mkL (ldecl l) (f :: lasserts l) (lsorts l) :: rest)).
+    { eapply runs_wf; [exact R3|]. eapply runs_wf; [exact R2|]. eapply runs_wf; [exact R0 | exact Hwf]. }
+    unfold Inv. rewrite Q3, T4, P1. cbn [map ldecl lasserts lsorts] in *.
     split; [exact Q1|]. split; [exact Q2|].
-    rewrite <- Ha, <- Q4 in Hl |- *. cbn [ideal_step].
-    split; [reflexivity|]. split; [exact Hl | exact Hwf2].
+    rewrite <- Ha, <- T5, <- Q4 in Hl |- *. cbn [ideal_step].
+    split; [reflexivity|]. split; [exact Hl|]. split; [exact Hwf2|].
+    rewrite Q8, <- T3, <- Q7. reflexivity.
   Qed.
 
   Lemma inv_nonempty w s i d : Inv w s i d -> s <> [].
@@ -405,10 +494,10 @@ Section Legal.
   Qed.
 
   Lemma push_level_runs w s : werr w = false ->
-    runs w_push_level w s (mkW ([] :: decl w) (pending w) false) s [] [].
+    runs w_push_level w s (mkW ([] :: decl w) ([] :: sdecl w) (pending w) false) s [] [].
   Proof. intros He. split; [unfold w_push_level, guard; rewrite He|]; reflexivity. Qed.
   Lemma set_pending_runs b w s : werr w = false ->
-    runs (set_pending b) w s (mkW (decl w) b false) s [] [].
+    runs (set_pending b) w s (mkW (decl w) (sdecl w) b false) s [] [].
   Proof. intros He. split; [unfold set_pending, guard; rewrite He|]; reflexivity. Qed.
 
   Lemma repeat_cons_comm {A} (x : A) n l : repeat x n ++ x :: l = x :: repeat x n ++ l.
@@ -419,27 +508,32 @@ Section Legal.
   Proof. induction n as [|n IH]; intros [|x l]; cbn; auto. Qed.
 
   Lemma push_levels_runs : forall n w s, werr w = false ->
-    runs (repeat_m n w_push_level) w s (mkW (repeat [] n ++ decl w) (pending w) false) s [] [].
+    runs (repeat_m n w_push_level) w s
+         (mkW (repeat [] n ++ decl w) (repeat [] n ++ sdecl w) (pending w) false) s [] [].
   Proof.
     induction n as [|n IH]; intros w s He.
-    - destruct w as [dl p e]. cbn in He. subst e. split; reflexivity.
+    - destruct w as [dl sl p e]. cbn in He. subst e. split; reflexivity.
     - pose proof (push_level_runs w s He) as R1.
-      pose proof (IH (mkW ([] :: decl w) (pending w) false) s eq_refl) as R2.
-      cbn [decl pending] in R2. rewrite repeat_cons_comm in R2.
+      pose proof (IH (mkW ([] :: decl w) ([] :: sdecl w) (pending w) false) s eq_refl) as R2.
+      cbn [decl sdecl pending] in R2. rewrite !repeat_cons_comm in R2.
       exact (runs_seq _ _ _ _ _ _ _ _ _ _ _ _ R1 R2).
   Qed.
 
   Lemma pop_levels_runs : forall n w s, werr w = false -> n <= length (decl w) ->
-    runs (repeat_m n w_pop_level) w s (mkW (skipn n (decl w)) (pending w) false) s [] [].
+    n <= length (sdecl w) ->
+    runs (repeat_m n w_pop_level) w s
+         (mkW (skipn n (decl w)) (skipn n (sdecl w)) (pending w) false) s [] [].
   Proof.
-    induction n as [|n IH]; intros w s He Hn.
-    - destruct w as [dl p e]. cbn in He. subst e. split; reflexivity.
-    - destruct w as [dl p e]. cbn in He, Hn. subst e. destruct dl as [|t dl]; [cbn in Hn; lia|].
-      assert (R1 : runs w_pop_level (mkW (t :: dl) p false) s (mkW dl p false) s [] [])
+    induction n as [|n IH]; intros w s He Hn Hm.
+    - destruct w as [dl sl p e]. cbn in He. subst e. split; reflexivity.
+    - destruct w as [dl sl p e]. cbn in He, Hn, Hm. subst e.
+      destruct dl as [|t dl]; [cbn in Hn; lia|]. destruct sl as [|u sl]; [cbn in Hm; lia|].
+      assert (R1 : runs w_pop_level (mkW (t :: dl) (u :: sl) p false) s (mkW dl sl p false) s [] [])
         by (split; reflexivity).
-      pose proof (IH (mkW dl p false) s eq_refl) as R2. cbn [decl pending] in R2.
+      pose proof (IH (mkW dl sl p false) s eq_refl) as R2. cbn [decl sdecl pending] in R2.
       assert (Hn' : n <= length dl) by (cbn in Hn; lia).
-      exact (runs_seq _ _ _ _ _ _ _ _ _ _ _ _ R1 (R2 Hn')).
+      assert (Hm' : n <= length sl) by (cbn in Hm; lia).
+      exact (runs_seq _ _ _ _ _ _ _ _ _ _ _ _ R1 (R2 Hn' Hm')).
   Qed.
 
   Lemma push_ok n w s i d : Inv w s i d ->
@@ -447,18 +541,18 @@ Section Legal.
       Inv w' s' (repeat [] n ++ i) (d + n) /\ pending w' = false.
   Proof.
     intros HI. destruct (clear_ok w s i d HI) as (w1 & s1 & c1 & r1 & R1 & N1 & I1 & P1).
-    destruct I1 as (He & Hd & Ha & Hl & Hwf). rewrite P1 in Ha.
+    destruct I1 as (He & Hd & Ha & Hl & Hwf & Hs). rewrite P1 in Ha.
     pose proof (push_levels_runs n w1 s1 He) as R2.
-    set (w2 := mkW (repeat [] n ++ decl w1) (pending w1) false) in *.
+    set (w2 := mkW (repeat [] n ++ decl w1) (repeat [] n ++ sdecl w1) (pending w1) false) in *.
     pose proof (emit_runs (CPush n) w2 s1 eq_refl) as R3. cbn [spec_step fst snd] in R3.
-    exists w2, (repeat (mkL [] []) n ++ s1), (c1 ++ [] ++ [CPush n]), (r1 ++ [] ++ [RSuccess]).
+    exists w2, (repeat (mkL [] [] []) n ++ s1), (c1 ++ [] ++ [CPush n]), (r1 ++ [] ++ [RSuccess]).
     split; [eapply runs_seq; [exact R1|]; eapply runs_seq; [exact R2 | exact R3]|].
     split; [rewrite !no_error_app, N1; reflexivity|].
     split; [|exact P1].
-    unfold Inv, w2. cbn [werr decl pending]. rewrite P1.
-    rewrite !map_app, !map_repeat_l. cbn [ldecl lasserts].
+    unfold Inv, w2. cbn [werr decl sdecl pending]. rewrite P1.
+    rewrite !map_app, !map_repeat_l. cbn [ldecl lasserts lsorts].
     split; [reflexivity|]. split; [congruence|]. split; [congruence|].
-    split; [rewrite app_length, repeat_length; lia | apply wf_push, Hwf].
+    split; [rewrite app_length, repeat_length; lia|]. split; [apply wf_push, Hwf | congruence].
   Qed.
 
   Lemma pop_ok n w s i d : Inv w s i d -> n <= d ->
@@ -466,11 +560,12 @@ Section Legal.
       Inv w' s' (skipn n i) (d - n) /\ pending w' = false.
   Proof.
     intros HI Hd1. destruct (clear_ok w s i d HI) as (w1 & s1 & c1 & r1 & R1 & N1 & I1 & P1).
-    destruct I1 as (He & Hd & Ha & Hl & Hwf). rewrite P1 in Ha.
+    destruct I1 as (He & Hd & Ha & Hl & Hwf & Hs). rewrite P1 in Ha.
     assert (Hlen : length s1 = S d) by (rewrite <- Hl, <- Ha, map_length; reflexivity).
     assert (Hn : n <= length (decl w1)) by (rewrite <- Hd, map_length; lia).
-    pose proof (pop_levels_runs n w1 s1 He Hn) as R2.
-    set (w2 := mkW (skipn n (decl w1)) (pending w1) false) in *.
+    assert (Hm : n <= length (sdecl w1)) by (rewrite <- Hs, map_length; lia).
+    pose proof (pop_levels_runs n w1 s1 He Hn Hm) as R2.
+    set (w2 := mkW (skipn n (decl w1)) (skipn n (sdecl w1)) (pending w1) false) in *.
     pose proof (emit_runs (CPop n) w2 s1 eq_refl) as R3. cbn [spec_step] in R3.
     assert (Hlt : (n <? length s1) = true) by (apply Nat.ltb_lt; lia).
     rewrite Hlt in R3. cbn [fst snd] in R3.
@@ -478,10 +573,11 @@ Section Legal.
     split; [eapply runs_seq; [exact R1|]; eapply runs_seq; [exact R2 | exact R3]|].
     split; [rewrite !no_error_app, N1; reflexivity|].
     split; [|exact P1].
-    unfold Inv, w2. cbn [werr decl pending]. rewrite P1.
+    unfold Inv, w2. cbn [werr decl sdecl pending]. rewrite P1.
     split; [reflexivity|]. split; [rewrite <- Hd, skipn_map_l; reflexivity|].
     split; [rewrite <- Ha, skipn_map_l; reflexivity|].
-    split; [rewrite skipn_length; lia | apply wf_skipn, Hwf].
+    split; [rewrite skipn_length; lia|]. split; [apply wf_skipn, Hwf|].
+    rewrite <- Hs, skipn_map_l; reflexivity.
   Qed.
 
   Lemma reset_ok w s i d : Inv w s i d ->
@@ -489,17 +585,17 @@ Section Legal.
       Inv w' s' ideal_init 0 /\ pending w' = false.
   Proof.
     intros HI. destruct (clear_ok w s i d HI) as (w1 & s1 & c1 & r1 & R1 & N1 & I1 & P1).
-    destruct I1 as (He & Hd & Ha & Hl & Hwf).
+    destruct I1 as (He & Hd & Ha & Hl & Hwf & Hs).
     pose proof (emit_runs CResetAssertions w1 s1 He) as R2. cbn [spec_step fst snd] in R2.
-    assert (R3 : runs w_reset_record w1 s_init (mkW [[]] (pending w1) false) s_init [] [])
+    assert (R3 : runs w_reset_record w1 s_init (mkW [[]] [[]] (pending w1) false) s_init [] [])
       by (split; [unfold w_reset_record, guard; rewrite He|]; reflexivity).
-    exists (mkW [[]] (pending w1) false), s_init, (c1 ++ [CResetAssertions] ++ []), (r1 ++ [RSuccess] ++ []).
+    exists (mkW [[]] [[]] (pending w1) false), s_init, (c1 ++ [CResetAssertions] ++ []), (r1 ++ [RSuccess] ++ []).
     split; [eapply runs_seq; [exact R1|]; eapply runs_seq; [exact R2 | exact R3]|].
     split; [rewrite !no_error_app, N1; reflexivity|].
     split; [|exact P1].
-    unfold Inv. cbn [werr decl pending]. rewrite P1. cbn.
+    unfold Inv. cbn [werr decl sdecl pending]. rewrite P1. cbn.
     split; [reflexivity|]. split; [reflexivity|]. split; [reflexivity|].
-    split; [reflexivity|]. split; [intros f x []|exact I].
+    split; [reflexivity|]. split; [split; [intros f x []|exact I] | reflexivity].
   Qed.
 
   Lemma solve_ok w s i d : Inv w s i d ->
@@ -507,7 +603,7 @@ Section Legal.
       Inv w' s' i d /\ pending w' = false /\ verdict_of rs = Some (decide (ideal_live i)).
   Proof.
     intros HI. destruct (clear_ok w s i d HI) as (w1 & s1 & c1 & r1 & R1 & N1 & I1 & P1).
-    pose proof I1 as (He & Hd & Ha & Hl & Hwf). rewrite P1 in Ha.
+    pose proof I1 as (He & Hd & Ha & Hl & Hwf & Hs). rewrite P1 in Ha.
     pose proof (emit_runs CCheckSat w1 s1 He) as R3. cbn [spec_step fst snd] in R3.
     exists w1, s1, (c1 ++ [CCheckSat]), (r1 ++ [RVerdict (decide (live s1))]).
     split; [eapply runs_seq; [exact R1 | exact R3]|].
@@ -519,7 +615,7 @@ Section Legal.
   Lemma inv_declared w s i d f x : Inv w s i d -> In f (ideal_live i) -> In x (fvs f) ->
     s_declared x s = true.
   Proof.
-    intros (He & Hd & Ha & Hl & Hwf) Hf Hx. unfold ideal_live in Hf. rewrite <- Ha in Hf.
+    intros (He & Hd & Ha & Hl & Hwf & Hs) Hf Hx. unfold ideal_live in Hf. rewrite <- Ha in Hf.
     destruct (pending w).
     - destruct s as [|l r]; [destruct Hf|]. cbn [tl] in Hf. apply s_declared_cons.
       apply (wf_live r f x); [exact (proj2 Hwf) | rewrite live_concat; exact Hf | exact Hx].
@@ -585,16 +681,16 @@ Section Legal.
     destruct (add_ok f w1 s1 _ _ I1) as (w2 & s2 & c2 & r2 & R2 & N2 & I2 & P2).
     cbn [ideal_step] in I2.
     destruct (solve_ok w2 s2 _ _ I2) as (w3 & s3 & c3 & r3 & R3 & N3 & I3 & P3 & V3).
-    pose proof I3 as (He & Hd & Ha & Hl & Hwf). rewrite P3 in Ha.
+    pose proof I3 as (He & Hd & Ha & Hl & Hwf & Hs). rewrite P3 in Ha.
     pose proof (set_pending_runs true w3 s3 He) as R4.
-    exists (mkW (decl w3) true false), s3, (c1 ++ c2 ++ c3 ++ []), (r1 ++ r2 ++ r3 ++ []).
+    exists (mkW (decl w3) (sdecl w3) true false), s3, (c1 ++ c2 ++ c3 ++ []), (r1 ++ r2 ++ r3 ++ []).
     split; [eapply runs_seq; [exact R1|]; eapply runs_seq; [exact R2|]; eapply runs_seq;
             [exact R3 | exact R4]|].
     split; [rewrite !no_error_app, N1, N2, N3; reflexivity|].
     split.
-    - unfold Inv. cbn [werr decl pending]. split; [reflexivity|]. split; [exact Hd|].
+    - unfold Inv. cbn [werr decl sdecl pending]. split; [reflexivity|]. split; [exact Hd|].
       destruct s3 as [|l r]; [discriminate|]. cbn [tl]. cbn in Ha. injection Ha as _ Ha.
-      split; [exact Ha|]. split; [exact Hlen | exact Hwf].
+      split; [exact Ha|]. split; [exact Hlen|]. split; [exact Hwf | exact Hs].
     - rewrite app_nil_r. unfold verdict_of in *. rewrite !app_assoc.
       destruct r3 as [|x r3'] using rev_ind; [discriminate|].
       rewrite last_last in V3. rewrite !app_assoc, last_last. exact V3.
@@ -689,7 +785,7 @@ Section Legal.
   Lemma inv_init : Inv w_init s_init ideal_init 0.
   Proof.
     unfold Inv. cbn. split; [reflexivity|]. split; [reflexivity|]. split; [reflexivity|].
-    split; [reflexivity|]. split; [intros f x []|exact I].
+    split; [reflexivity|]. split; [split; [intros f x []|exact I] | reflexivity].
   Qed.
 
   (* FULL CLAUSE: on every history that respects the user-level stack discipline (push(n) /
@@ -783,24 +879,25 @@ Section Legal.
 End Legal.
 
 (* the side condition is satisfiable by a non-trivial history: multi-level push/pop, a one-shot
-   check whose pending level is cleared by the next call, value queries in the middle, reset *)
+   check whose pending level is cleared by the next call, value queries in the middle, reset;
+   symbols 5 and 6 have the custom sort 0, whose name collides with symbol 0 *)
 Definition legal_example : list api_call :=
-  [AAdd (FAtom 0 [0; 1]); APush 2; AAdd (FAtom 1 [1; 2]); AIsSat (FAtom 2 [3]); APush 1;
-   AAdd (FNot (FAtom 3 [0; 3])); ASolve; AGetValue [0; 3]; AGetModel; APop 2;
-   AIsValid (FAtom 4 [2]); APop 1; ASolve; AReset; AAdd (FAtom 5 [0]); ASolve; AGetModel; AExit].
+  [AAdd (FAtom 0 [(0, None); (1, None); (5, Some 0); (6, Some 0)]); APush 2; AAdd (FAtom 1 (plain [1; 2])); AIsSat (FAtom 2 (plain [3])); APush 1;
+   AAdd (FNot (FAtom 3 (plain [0; 3]))); ASolve; AGetValue [0; 3]; AGetModel; APop 2;
+   AIsValid (FAtom 4 (plain [2])); APop 1; ASolve; AReset; AAdd (FAtom 5 (plain [0])); ASolve; AGetModel; AExit].
 Example legal_example_ok : history_legal ideal_init 0 legal_example = true.
 Proof. reflexivity. Qed.
 Example legal_example_stream :
   snd (run_api w_init legal_example) =
-  [CDeclare 0; CDeclare 1; CAssert (FAtom 0 [0; 1]); CPush 2; CDeclare 2; CAssert (FAtom 1 [1; 2]); CPush 1; CDeclare 3; CAssert (FAtom 2 [3]); CCheckSat; CPop 1; CPush 1; CDeclare 3; CAssert (FNot (FAtom 3 [0; 3])); CCheckSat; CGetValue [0; 3]; CGetValue [3]; CGetValue [2]; CGetValue [1]; CGetValue [0]; CPop 2; CPush 1; CDeclare 2; CAssert (FNot (FAtom 4 [2])); CCheckSat; CPop 1; CPop 1; CCheckSat; CResetAssertions; CDeclare 0; CAssert (FAtom 5 [0]); CCheckSat; CGetValue [0]; CExit].
+  [CDeclareSort 0; CDeclare 0 None; CDeclare 1 None; CDeclare 5 (Some 0); CDeclare 6 (Some 0); CAssert (FAtom 0 [(0, None); (1, None); (5, Some 0); (6, Some 0)]); CPush 2; CDeclare 2 None; CAssert (FAtom 1 [(1, None); (2, None)]); CPush 1; CDeclare 3 None; CAssert (FAtom 2 [(3, None)]); CCheckSat; CPop 1; CPush 1; CDeclare 3 None; CAssert (FNot (FAtom 3 [(0, None); (3, None)])); CCheckSat; CGetValue [0; 3]; CGetValue [3]; CGetValue [2]; CGetValue [6]; CGetValue [5]; CGetValue [1]; CGetValue [0]; CPop 2; CPush 1; CDeclare 2 None; CAssert (FNot (FAtom 4 [(2, None)])); CCheckSat; CPop 1; CPop 1; CCheckSat; CResetAssertions; CDeclare 0 None; CAssert (FAtom 5 [(0, None)]); CCheckSat; CGetValue [0]; CExit].
 Proof. reflexivity. Qed.
 
 (* ====================================================================== *)
 (* C. One clause is still FALSE of the faithful model: witness             *)
 (* ====================================================================== *)
 
-Definition X := FAtom 0 [0].
-Definition Y := FAtom 1 [1].
+Definition X := FAtom 0 (plain [0]).
+Definition Y := FAtom 1 (plain [1]).
 
 (* get_value never declares: a symbol that occurs in no (simplified) assertion is sent undeclared
    (declaring it on the spot would leave sat mode, in which get-value is not allowed) *)
@@ -888,5 +985,5 @@ Fixpoint ex_holds (I : nat -> bool) (f : form) : bool :=
   match f with FAtom id _ => I id | FNot g => negb (ex_holds I g) end.
 Example truth_hypotheses_satisfiable :
   (forall I f, ex_holds I (FNot f) = negb (ex_holds I f)) /\
-  sat_by (nat -> bool) ex_holds (fun n => Nat.eqb n 0) [FAtom 0 [0]; FNot (FAtom 1 [1])].
+  sat_by (nat -> bool) ex_holds (fun n => Nat.eqb n 0) [FAtom 0 (plain [0]); FNot (FAtom 1 (plain [1]))].
 Proof. split; [reflexivity|]. intros g [<-|[<-|[]]]; reflexivity. Qed.
